@@ -1,12 +1,123 @@
 (** C05 — Dashing cuts the path by arc length according to the pattern.
-    Property theorems only; each is closed by [exact] of a lemma proved elsewhere. *)
+    Property theorems only; each is closed by [exact] of a lemma proved elsewhere.
+    Model: Dash/DashPhase.v ([eps] = canvas.Epsilon, any value >= 0).  [on d offset s] is the specification
+    (cyclic, odd patterns doubled, offset-shifted); [dash_model] is the faithful model of Path.Dash on one
+    subpath of length L (cut list t, final pattern index ie), [sel t ie s] says whether arc position s lies in
+    a piece Dash keeps. *)
 From Coq Require Import ZArith QArith List Bool.
-From CV Require Import Dash.DashPhase Dash.DashRefuted.
+From CV Require Import Dash.DashPhase Dash.DashProofs Dash.DashCanonProofs Dash.DashFuelProofs Dash.DashEquivProofs Dash.DashRefuted.
 Import ListNotations.
 Open Scope Q_scope.
 
+(** dash_start_negative — REFUTED on the unchanged tree (c5c8c72): with offset < -period the pieces kept by Dash
+    are not the [on] positions.  Witness offset -4, dashes [2,1], M0 0L20 0, position 0 (replayed on the Go code). *)
 Theorem C05_dash_start_negative_refuted_v0 :
   exists off d L s, allpos d /\ 0 <= s /\ s + go_eps < L /\
     dres_sel (dash_model_v0 go_eps off d L) s <> on d off s.
 Proof. exact dash_start_negative_refuted_v0. Qed.
 Print Assumptions C05_dash_start_negative_refuted_v0.
+
+(** dash_start_negative — FULL after "fix: dashStart reduces a negative offset modulo the pattern length": for every
+    positive pattern and EVERY offset (negative, below -period, beyond the period) dashStart returns a valid phase:
+    an index i0 inside the pattern and a start position pos0 <= 0 with  pos0 + offset = prefix(i0)  (mod period). *)
+Theorem C05_dash_start_negative : forall dd off i0 pos0, allpos dd -> dd <> [] ->
+  dash_start off dd = (i0, pos0) ->
+  (i0 < length dd)%nat /\ pos0 <= 0 /\ exists k : Z, pos0 + off == prefix dd i0 + inject_Z k * qsum dd.
+Proof. exact dash_start_phase. Qed.
+Print Assumptions C05_dash_start_negative.
+
+(** dash_intervals_spec — FULL.  For every dash array, every offset and every subpath length on which Dash makes
+    cuts: with (off', c) = dashCanonical(offset, d), the pieces Dash keeps are exactly {s in [0,L) | on c off' s}.
+    The Epsilon cut is explicit: the loop condition is pos+d[i]+Epsilon < L, so a cut the pattern prescribes inside
+    [L-Epsilon, L) is not made; the claim is for all s with s + Epsilon < L. *)
+Theorem C05_dash_intervals_spec : forall eps, 0 <= eps -> forall off d L off' c t ie,
+  dash_canonical eps off d = (off', c) -> dash_model eps off d L = DCuts t ie ->
+  forall s, 0 <= s -> s + eps < L -> sel t ie s = on c off' s.
+Proof. exact dash_sel_canonical. Qed.
+Print Assumptions C05_dash_intervals_spec.
+
+(** the cut loop of the model never runs out of fuel: the model of Dash is total *)
+Theorem C05_dash_model_total : forall eps off d L, 0 <= eps -> dash_model eps off d L <> DFuel.
+Proof. exact dash_model_total. Qed.
+Print Assumptions C05_dash_model_total.
+
+(** dash_canonical: the output is the empty array (solid), [0] (nothing) or an array of entries > Epsilon on which
+    the REPEAT loop has terminated; a second canonicalisation changes nothing. *)
+Theorem C05_dash_canonical_shape : forall eps off d off' c, dash_canonical eps off d = (off', c) ->
+  (c = [] /\ off' = 0) \/ (c = [0] /\ off' = 0) \/ (Forall (fun x => eps < x) c /\ c <> [] /\ stopb eps c = true).
+Proof. exact canon_shape_ok. Qed.
+Print Assumptions C05_dash_canonical_shape.
+
+Theorem C05_dash_canonical_idempotent : forall eps, 0 <= eps -> forall off d off' c,
+  dash_canonical eps off d = (off', c) -> dash_canonical eps off' c = (off', c).
+Proof. exact canon_idem. Qed.
+Print Assumptions C05_dash_canonical_idempotent.
+
+(** degenerate patterns: empty -> the path itself; all-zero -> nothing *)
+Theorem C05_empty_pattern_identity : forall eps off L, dash_model eps off [] L = DIdentity.
+Proof. exact (fun eps => dash_empty eps dash_start). Qed.
+Print Assumptions C05_empty_pattern_identity.
+
+Theorem C05_allzero_pattern_nothing : forall eps, 0 <= eps -> forall off d L, d <> [] ->
+  Forall (fun x => x == 0) d -> dash_model eps off d L = DNothing.
+Proof. exact (fun eps H => dash_allzero eps H dash_start). Qed.
+Print Assumptions C05_allzero_pattern_nothing.
+
+(** check_dash_agrees — REFUTED on the unchanged tree in three independent ways (sign of pos, parity on the
+    un-doubled odd array, canonical offset dropped); each witness was replayed on the Go code. *)
+Theorem C05_check_dash_agrees_refuted_v0_sign :
+  exists off d L s, allpos d /\ 0 <= s /\ s + go_eps < L /\
+    drawpath_sel_v0 go_eps off d L L s <> dres_sel (dash_model_v0 go_eps off d L) s.
+Proof. exact check_dash_agrees_refuted_v0_sign. Qed.
+Print Assumptions C05_check_dash_agrees_refuted_v0_sign.
+
+Theorem C05_check_dash_agrees_refuted_v0_parity :
+  exists off d L s, allpos d /\ 0 <= s /\ s + go_eps < L /\
+    drawpath_sel_v0 go_eps off d L L s <> dres_sel (dash_model_v0 go_eps off d L) s.
+Proof. exact check_dash_agrees_refuted_v0_parity. Qed.
+Print Assumptions C05_check_dash_agrees_refuted_v0_parity.
+
+Theorem C05_check_dash_agrees_refuted_v0_offset :
+  exists off d L s, nonneg d /\ 0 <= s /\ s + go_eps < L /\
+    drawpath_sel_v0 go_eps off d L L s <> dres_sel (dash_model_v0 go_eps off d L) s.
+Proof. exact check_dash_agrees_refuted_v0_offset. Qed.
+Print Assumptions C05_check_dash_agrees_refuted_v0_offset.
+
+(** check_dash_agrees — FULL after "fix: checkDash decides like Dash ...": what Context.DrawPath decides for a path
+    of total length Ltot (no stroke / solid stroke / Dash with the returned offset and array) draws at every position
+    s of every subpath of length L <= Ltot exactly what Dash(offset, d...) draws.  All dash arrays, all offsets. *)
+Theorem C05_check_dash_agrees : forall eps, 0 <= eps -> forall off d Ltot L s, L <= Ltot ->
+  drawpath_sel eps off d Ltot L s = dres_sel (dash_model eps off d L) s.
+Proof. exact check_dash_agrees. Qed.
+Print Assumptions C05_check_dash_agrees.
+
+(** closed_join_rule — FULL: on a closed subpath on which Dash makes at least one cut, the last piece is joined in
+    front of the first one iff position 0 is [on] and the subpath ends inside a dash; "ends inside a dash" is the
+    [on] state of every position of the last piece (up to the Epsilon cut); all cuts lie in (0, L-Epsilon). *)
+Theorem C05_closed_join_rule : forall eps, 0 <= eps -> forall off d L off' c t ie,
+  dash_canonical eps off d = (off', c) -> dash_model eps off d L = DCuts t ie -> t <> [] ->
+  join_decision true t ie = on c off' 0 && ends_in_dash ie
+  /\ (forall s, 0 <= s -> s + eps < L -> Forall (fun b => b <= s) t -> ends_in_dash ie = on c off' s)
+  /\ Forall (fun b => 0 < b /\ b + eps < L) t.
+Proof. exact closed_join_rule. Qed.
+Print Assumptions C05_closed_join_rule.
+
+(** which pieces are kept: the j0 / step-2 / endsInDash selection of Dash keeps piece k of nt+1 pieces iff its
+    distance to the last piece has the parity that makes it a dash *)
+Theorem C05_kept_parity : forall nt ends k, (k <= nt)%nat ->
+  kept nt ends k = Bool.eqb (Nat.even (nt - k)) ends.
+Proof. exact kept_parity. Qed.
+Print Assumptions C05_kept_parity.
+
+(** dash_canonical_equiv — PARTIAL.  Full statement (not proved):
+      forall eps g off d off' c s, 0 <= eps < g -> (every entry of d is a non-negative multiple of g) ->
+        dash_canonical eps off d = (off', c) -> c <> [] -> c <> [0] -> on c off' s = on d off s
+      (and c = [] -> on d off s = true, c = [0] -> on d off s = false).
+    Proved: the first canonicalisation step (interior zeros removed, neighbours merged) preserves [on] at every
+    position and offset, for arrays whose Epsilon zero-test is exact ([exact0], true on any grid coarser than eps).
+    Missing: the first-zero/last-zero steps (rotation of the cyclic pattern) and the REPEAT step; these are checked on
+    every run by K1 flag 16 (design/C05.md), not proved. *)
+Theorem C05_dash_canonical_equiv_partial : forall eps d0 rest off s, 0 <= d0 -> exact0 eps rest ->
+  on (rm_mid_zeros eps d0 rest) off s = on (d0 :: rest) off s.
+Proof. exact rm_mid_zeros_on. Qed.
+Print Assumptions C05_dash_canonical_equiv_partial.
